@@ -905,6 +905,18 @@ def registry_walk_spec(rep, rule, func, helper, storage, direction, first_hit,
             if hc:
                 last = hres[-1]
                 isnone = fact_about(ps, last)
+                # the result may be tested for None only: any other condition
+                # on it (its truth value, a comparison) lets a registered
+                # falsy object fall through to the next registry
+                for c, t, _p in ps.order:
+                    try:
+                        cc = nt(ast.parse(c, mode='eval').body)
+                    except SyntaxError:
+                        continue
+                    if last in cc and cc != '%s is None' % last:
+                        problems.append('the walk goes on or stops depending on `%s`, '
+                                        'not on the result being None'
+                                        % cc.replace(last, '<result>')[:60])
                 if isnone is False and ret != last:
                     problems.append('a non-None result is not returned (returns `%s`)' % ret[:40])
                 if isnone is True and ret not in ('None',) and ret != last:
